@@ -190,7 +190,7 @@ LEVELS = {
             "Checked every run: 5k ToOSPath/FromOSPath/Sub cases model = implementation through the build-tagged shims for Unix and Windows conventions.",
             "filepath.VolumeName is an input of the model. Error-path rewriting of os/fs.go is exercised on the real OS only."),
     "C10": ("Proved over the cache model: the cache store holds only complete copies, Open serves the source's bytes, a successful open settles the entry, settled entries are never re-read and stay settled.  Proved over the model of the directory handle (cache/dir.go): while the source lists the directory the handle is the same pager as the key-value handle (C16), a source that cannot list makes the call fail and leaves the handle where it was, and over any call sequence with failures at any calls the delivered pages are exactly the listing up to the handle's position. "
-            "Checked every run: access sequences cache vs source (bytes, stat, listings, re-read counts); call sequences on directory handles with an intermittently failing source; model = implementation.",
+            "Checked every run: access sequences cache vs source (bytes, stat, listings, re-read counts); call sequences on directory handles with an intermittently failing source; Open and Stat from a second goroutine while one Open is copying; model = implementation.",
             "Real parallelism of the path lock is exercised by C11's scheduler, not proved."),
     "C11": ("Proved over the fill state machine: a partial copy is never served, an interrupted fill reports an error, a failed fill leaves nothing servable -- over every sequence of faults, a source that cannot be opened during a later call included.  Proved over the interleaving model of concurrent openers of one name (any number of openers, every schedule, a failure possible at every step of every fill): at most one copy is in progress, every open that succeeds is complete, no partial copy is ever left unmarked, a settled copy stays, some opener can always move.  Proved over the model of fills of different names whose read-a-chunk / write-the-buffer steps interleave in any order (Cache/CopyBuf.v): every file is at every moment a prefix of its own source and a finished fill has left exactly its source. "
             "Checked every run: failures injected at every source/store call, the same followed by a re-open with the source down (model = implementation); 2..4 concurrent first opens with the copy paused at chunk boundaries and a failing fill while a second opener waits (Remove slow / Remove failing): simultaneous copies counted, and the store calls the real cache made are replayed through the interleaving model (model accepts = implementation follows the protocol); the fill of one name held inside a store write while another name is opened and read, every open and re-open compared with the source and the store's Writes replayed through the model of interleaved fills.",
